@@ -108,6 +108,15 @@ func runProperty(pc *PropConfig, overlay map[string][]byte, timeoutS int, wantMo
 		rr.Funcs = append(rr.Funcs, r)
 		all = append(all, r.Obls...)
 	}
+	for _, lem := range eng.cs.Lemmas {
+		key := pkgShort(lem.PkgPath) + ".lemma." + lem.Name
+		if want[key] && (only == nil || only[key]) {
+			r := eng.ProveLemma(lem)
+			rr.Funcs = append(rr.Funcs, r)
+			all = append(all, r.Obls...)
+			found[key] = true
+		}
+	}
 	for _, f := range pc.Functions {
 		if !found[f] && (only == nil || only[f]) {
 			rr.Funcs = append(rr.Funcs, &FuncResult{Key: f, Aborted: "no contract found for " + f + " (contract file missing or key changed)"})
@@ -124,7 +133,7 @@ func runProperty(pc *PropConfig, overlay map[string][]byte, timeoutS int, wantMo
 	}
 	var wg sync.WaitGroup
 	wg.Add(1)
-	go func() { defer wg.Done(); solveAll(covers, 3, 4, false) }()
+	go func() { defer wg.Done(); solveAll(covers, 2, 4, false) }()
 	solveAll(rest, timeoutS, 12, wantModel)
 	wg.Wait()
 	if wantModel {
@@ -156,7 +165,7 @@ func runProperty(pc *PropConfig, overlay map[string][]byte, timeoutS int, wantMo
 	}
 	for _, s := range rr.Summaries {
 		switch {
-		case s.Kind == "cover" && s.Unsat > 0:
+		case s.Kind == "cover" && s.Unsat == s.Instances:
 			s.Status = "vacuous"
 		case s.Kind == "cover":
 			s.Status = "covered"
